@@ -350,7 +350,33 @@ def s5(ctx, rep):
     rep.put(ok, "S5", "agreement", "_serialize_report_dict: every handler re-raises", ser, None, f"{len(hs)} handlers")
 
 
+def s6_local(ctx, rep):
+    """the local backend hands the reader the complete captured output of the trial at every poll, and what the reader returns is
+    the trial's metric list: no incremental parsing state (lines already parsed, a cached list) is kept between polls - a report
+    that completes a line which was read while still open would fall between two increments"""
+    from ..engine import deref
+    P = ctx.P
+    f = P.method("LocalBackend", "_all_trial_results")
+    calls = [x for x in walk_shallow(f.node) if isinstance(x, ast.Call) and fn_name(x) == "retrieve"]
+    if len(calls) != 1:
+        raise AnchorError("LocalBackend._all_trial_results: call of retrieve(...) not found exactly once")
+    a0 = kwarg(calls[0], "log_lines", 0)
+    src = deref(f, a0) if a0 is not None else None
+    whole = isinstance(src, ast.Call) and fn_name(src) == "stdout" and isinstance(src.func, ast.Attribute) and U(src.func.value) == "self"
+    rep.put(whole, "S1", "taint", "LocalBackend._all_trial_results: retrieve is given the whole captured output of the trial", f, calls[0], "",
+            f"retrieve is given `{U(a0)[:60] if a0 is not None else '?'}`, not the complete self.stdout(trial_id): a report written onto a line that was already "
+            "seen while it was still open is never parsed")
+    # its result is what add_results gets
+    st = [x for x in walk_shallow(f.node) if isinstance(x, ast.Assign) and any(y is calls[0] for y in ast.walk(x.value))]
+    mv = U(st[0].targets[0]) if st and len(st[0].targets) == 1 and U(st[0].value) == U(calls[0]) else None
+    ar = [x for x in walk_shallow(f.node) if isinstance(x, ast.Call) and fn_name(x) == "add_results"]
+    okm = mv is not None and len(ar) == 1 and kwarg(ar[0], "metrics", 0) is not None and U(kwarg(ar[0], "metrics", 0)) == mv
+    rep.put(okm, "S1", "agreement", "LocalBackend._all_trial_results: the metrics recorded for the trial are exactly what retrieve returned", f, ar[0] if ar else None, "",
+            "the recorded metric list is assembled from something else than this poll's retrieve(...) result (merged with a cache, filtered)")
+
+
 def run(ctx, rep, tier="quick"):
+    s6_local(ctx, rep)
     s1(ctx, rep)
     s2(ctx, rep)
     s3(ctx, rep)
